@@ -103,4 +103,58 @@ theorem tie_cacheNode_barrier : cacheNodeBarrierCalls = ["c.barrier.DoEx(key, fu
 theorem tie_collectionCache_barrier : collectionCacheBarrierCalls = ["c.barrier.Do(key, func)"] := by decide
 theorem tie_collectionCache_ctor : collectionCacheBarrierCtor = ["syncx.NewSingleFlight()"] := by decide
 
+/-- `collection.Cache.Take` = unlocked lookup (hit → return) ; `barrier.Do(key, closure)` with the closure of the
+same form as `GetResource`'s: look the key up again (`RM` row g1/g3: found → return it), run the loader (g4), on error
+return it uncached (g5), else store (g7) and return the loaded value; joiners and leader alike return the flight's
+`val`.  This is why its histories are checked against the `RM` model and monitor (harness TestVerifC07Collection). -/
+theorem tie_collectionTake : collectionTakeShape =
+    ["call c.doGet(key)", "if ok {", "call c.stats.IncrementHit()", "return val, nil", "}",
+     "var fresh",
+     "func{", "call c.doGet(key)", "if ok {", "return val, nil", "}",
+     "call fetch()", "if e != nil {", "return nil, e", "}",
+     "call c.Set(key, v)", "return v, nil", "}",
+     "call c.barrier.Do(key, func)", "if err != nil {", "return nil, err", "}",
+     "if fresh {", "call c.stats.IncrementMiss()", "return val, nil", "}",
+     "call c.stats.IncrementHit()", "return val, nil"] := by decide
+
+/-- `cacheNode.doTake`: the closure handed to the flight starts with the cache read for the same key, … -/
+theorem tie_doTake_reads_cache_first : cacheNodeDoTakeShape.take 2 = ["func{", "call c.doGetCache(ctx, key, v)"] := by
+  decide
+/-- … queries the database exactly once, writes the cache after it, … -/
+theorem tie_doTake_one_query :
+    cacheNodeDoTakeShape.filter (fun t => t = "call query(v)" || t = "call cacheVal(v)" || t = "call c.setCacheWithNotFound(ctx, key)")
+      = ["call query(v)", "call c.setCacheWithNotFound(ctx, key)", "call cacheVal(v)"] := by decide
+/-- … hands the marshalled row to the flight; after the flight: an error goes to everyone, the fresh caller keeps
+its own `v`, every joiner unmarshals the *leader's* bytes into its own `v`. -/
+theorem tie_doTake_after_flight :
+    cacheNodeDoTakeShape.dropWhile (fun t => t ≠ "call jsonx.Marshal(v)") =
+      ["call jsonx.Marshal(v)", "return <call>", "}",
+       "call c.barrier.DoEx(key, func)", "if err != nil {", "return err", "}", "if fresh {", "return nil", "}",
+       "call c.stat.IncrementTotal()", "call c.stat.IncrementHit()",
+       "call jsonx.Unmarshal(val.([]byte), v)", "return <call>"] := by decide
+
+/-- sqlc and monc hand ONE process-wide flight group to every cache (node) they build: flights are keyed by the
+cache key across all models of the process. -/
+theorem tie_sqlc_flight : sqlcFlightVar = ["singleFlights = syncx.NewSingleFlight()"] ∧
+    sqlcFlightUses = ["NewConn: cache.New(c, singleFlights, stats, sql.ErrNoRows, opts)",
+                      "NewNodeConn: cache.NewNode(rds, singleFlights, stats, sql.ErrNoRows, opts)"] := by decide
+theorem tie_monc_flight : moncFlightVar = ["singleFlight = syncx.NewSingleFlight()"] ∧
+    moncFlightUses = ["NewModel: cache.New(conf, singleFlight, stats, mongo.ErrNoDocuments, opts)",
+                      "NewNodeModel: cache.NewNode(rds, singleFlight, stats, mongo.ErrNoDocuments, opts)"] := by decide
+
+/-- the process-wide ResourceManagers: redis clients / clusters keyed by address, mongo clients by url (plus the
+`Inject` test hook), sql connections by data-source name — one `GetResource` call each, nothing else touches them. -/
+theorem tie_redis_managers :
+    redisClientManagerVar = ["clientManager = syncx.NewResourceManager()"] ∧
+    redisClientManagerUses = ["getClient: clientManager.GetResource(r.Addr, func)"] ∧
+    redisClusterManagerVar = ["clusterManager = syncx.NewResourceManager()"] ∧
+    redisClusterManagerUses = ["getCluster: clusterManager.GetResource(r.Addr, func)"] := by decide
+theorem tie_mon_manager :
+    monClientManagerVar = ["clientManager = syncx.NewResourceManager()"] ∧
+    monClientManagerUses = ["Inject: clientManager.Inject(key, &ClosableClient{client})",
+                            "getClient: clientManager.GetResource(url, func)"] := by decide
+theorem tie_sqlx_manager :
+    sqlxConnManagerVar = ["connManager = syncx.NewResourceManager()"] ∧
+    sqlxConnManagerUses = ["getCachedSqlConn: connManager.GetResource(server, func)"] := by decide
+
 end GoZero.C07.Tie
